@@ -204,10 +204,13 @@ def compare(a: ModelValue, b: ModelValue, rtol=1e-9, names=None, check_ode=True,
         for k, v in ra.items():
             if not _same(v, b.rhs[k], rtol):
                 return (f'ode:rhs:{k}', b.rhs[k], v)
+        dosed = {rename.get(k, k) for k in a.doses}
         for attr in ('lag', 'bio'):
             da = {rename.get(k, k): v for k, v in getattr(a, attr).items()}
             db = getattr(b, attr)
             for k, v in da.items():
+                if k not in dosed:
+                    continue  # lag time / bioavailability only act on doses entering the compartment
                 if k in db and not _same(v, db[k], rtol):
                     return (f'ode:{attr}:{k}', db[k], v)
         da = {rename.get(k, k): v for k, v in a.doses.items()}
